@@ -232,11 +232,7 @@ func (c *Ctx) ruleBabeVerify() {
 		okG := vpCall != nil && guardedBy(b, errSuccessGuard(vpCall))
 		// index derives from the verified digest's AuthorityIndex
 		fromIdx := false
-		for v := range backwardSlice(ia.Index, nil) {
-			if _, fv, ok := fieldLoad(v); ok && fv != nil && fv.Name() == "AuthorityIndex" {
-				fromIdx = true
-			}
-		}
+		fromIdx = valueFromField(ia.Index, "AuthorityIndex", va.Pkg, 0)
 		c.ob("R-AUTHIDX", "verifyAuthorshipRight:authorities[authIdx]", ia.Pos(), okG && fromIdx, "the sealing authority is authorities[pre-digest AuthorityIndex], used only after verifyPreRuntimeDigest (which bounds the index) succeeded")
 	})
 	// seal
@@ -353,12 +349,34 @@ func (c *Ctx) ruleLoopProg() {
 		exit := false
 		for _, r := range returnsOf(f) {
 			for _, fc := range factsAt(r.Block()) {
-				if call := callTo(fc.cond, "bytes.Equal"); call != nil && fc.truth {
+				if hashEqualFact(fc) {
 					exit = true
 				}
 			}
 		}
 		c.ob("R-LOOPPROG", relName(f.String())+":genesis-exit", f.Pos(), exit, "the loop must fail once the cursor has no parent (empty parent hash)")
+		// argument roles of the ancestry query: IsDescendantOf(ancestor = the announcing hash from the map, descendant = cursor)
+		eachInstr(f, func(_ *ssa.BasicBlock, _ int, in ssa.Instruction) {
+			call, ok := in.(*ssa.Call)
+			if !ok || call.Call.StaticCallee() == nil || call.Call.StaticCallee().Name() != "IsDescendantOf" || len(call.Call.Args) < 3 {
+				return
+			}
+			role := func(v ssa.Value) (fromMapKey, fromCursorHash bool) {
+				for x := range backwardSlice(v, nil) {
+					if _, ok := x.(*ssa.Next); ok {
+						fromMapKey = true
+					}
+					if cl, ok := x.(*ssa.Call); ok && cl.Call.StaticCallee() != nil && cl.Call.StaticCallee().Name() == "Hash" {
+						fromCursorHash = true
+					}
+				}
+				return
+			}
+			aKey, aCur := role(call.Call.Args[1])
+			dKey, dCur := role(call.Call.Args[2])
+			c.ob("R-FORKDATA", relName(f.String())+":IsDescendantOf-argument-roles", call.Pos(), aKey && !aCur && dCur && !dKey,
+				"IsDescendantOf(ancestor, descendant) must ask whether the ANNOUNCING block (map key) is an ancestor of the cursor; with the roles swapped, data announced on a descendant of — i.e. on another fork than — the queried block's ancestry is returned")
+		})
 		// returned data
 		for i, r := range returnsOf(f) {
 			if len(r.Results) < 3 || !isNilConst(resultOf(r, 2)) {
@@ -366,7 +384,7 @@ func (c *Ctx) ruleLoopProg() {
 			}
 			okSel := false
 			for _, fc := range factsAt(r.Block()) {
-				if call := callTo(fc.cond, "bytes.Equal"); call != nil && fc.truth {
+				if hashEqualFact(fc) {
 					okSel = true
 				}
 				for _, v := range phiInputs(fc.cond) {
@@ -416,6 +434,20 @@ func (c *Ctx) ruleChangeSearch() {
 		}
 		if base, fv, ok := fieldLoad(v); ok && fv != nil && fv.Name() == "Number" {
 			return attrRef{"announcing", side(base)}, true
+		}
+		// a value hoisted out of the predicate: a captured local of the enclosing function, assigned once there
+		if u, ok := v.(*ssa.UnOp); ok && u.Op == token.MUL {
+			if fvar, ok := u.X.(*ssa.FreeVar); ok {
+				if src := capturedSource(pred, fvar); src != nil {
+					src = stripConv(src)
+					if call, ok := src.(*ssa.Call); ok && call.Call.StaticCallee() != nil && call.Call.StaticCallee().Name() == "effectiveNumber" {
+						return attrRef{"effective", 1}, true
+					}
+					if _, fv, ok := fieldLoad(src); ok && fv != nil && fv.Name() == "Number" {
+						return attrRef{"announcing", 1}, true
+					}
+				}
+			}
 		}
 		return attrRef{}, false
 	}
@@ -854,4 +886,76 @@ func (c *Ctx) ruleBabeLottery() {
 	c.ob("R-THRESHOLDGUARDS", "scale-2^128", t.Pos(), shift, "the probability is scaled by exactly 2^128")
 	c.ob("R-THRESHOLDGUARDS", "saturates-at-max", t.Pos(), sat, "a result equal to 2^128 (c = 1) saturates to the maximum 128-bit value")
 	c.ob("R-THRESHOLDGUARDS", "at-most-16-bytes", t.Pos(), len16, "results longer than 16 bytes are refused")
+}
+
+// capturedSource: the single value the enclosing function stores into the local variable that closure cl captures as fv.
+func capturedSource(cl *ssa.Function, fv *ssa.FreeVar) ssa.Value {
+	parent := cl.Parent()
+	if parent == nil {
+		return nil
+	}
+	idx := -1
+	for i, x := range cl.FreeVars {
+		if x == fv {
+			idx = i
+		}
+	}
+	var src ssa.Value
+	n := 0
+	eachInstr(parent, func(_ *ssa.BasicBlock, _ int, in ssa.Instruction) {
+		mc, ok := in.(*ssa.MakeClosure)
+		if !ok || mc.Fn != ssa.Value(cl) || idx < 0 || idx >= len(mc.Bindings) {
+			return
+		}
+		al, ok := mc.Bindings[idx].(*ssa.Alloc)
+		if !ok {
+			return
+		}
+		for _, r := range *al.Referrers() {
+			if st, ok := r.(*ssa.Store); ok && st.Addr == ssa.Value(al) {
+				src = st.Val
+				n++
+			}
+		}
+	})
+	if n != 1 {
+		return nil
+	}
+	return src
+}
+
+// valueFromField: v depends on a load of the named field, possibly through the result of a helper of the same
+// package (extract-function refactorings).
+func valueFromField(v ssa.Value, field string, pkg *ssa.Package, depth int) bool {
+	if depth > 3 {
+		return false
+	}
+	for x := range backwardSlice(v, nil) {
+		if _, fv, ok := fieldLoad(x); ok && fv != nil && fv.Name() == field {
+			return true
+		}
+		if call, ok := x.(*ssa.Call); ok {
+			if g := call.Call.StaticCallee(); g != nil && g.Pkg == pkg && len(g.Blocks) > 0 {
+				for _, r := range returnsOf(g) {
+					if len(r.Results) > 0 && valueFromField(resultOf(r, 0), field, pkg, depth+1) {
+						return true
+					}
+				}
+			}
+		}
+	}
+	return false
+}
+
+// hashEqualFact: the fact establishes that two hashes are equal — bytes.Equal(a, b) true, or a == b on array values.
+func hashEqualFact(fc fact) bool {
+	if call := callTo(fc.cond, "bytes.Equal"); call != nil && fc.truth {
+		return true
+	}
+	if bo, ok := fc.cond.(*ssa.BinOp); ok && (bo.Op == token.EQL || bo.Op == token.NEQ) {
+		if _, isArr := bo.X.Type().Underlying().(*types.Array); isArr && fc.truth == (bo.Op == token.EQL) {
+			return true
+		}
+	}
+	return false
 }
